@@ -8,7 +8,8 @@ COMMON_TRUSTED = [
 
 INJECT_RULE = ("sessions of Add/Remove/WatchList (all path spellings, valid and malformed paths, symlinks, hard links, "
                "retargeted links, deleted+recreated files) interleaved with synthetic inotify datagrams (1..30 records per "
-               "read; masks: every meaningful bit and combinations; wd: listed / removed / never issued / -1; cookies: 0, "
+               "read, plus long reads of 150-600 create/write/remove records; Events buffer 0/1/2/7/64/4096; consumer pace "
+               "immediate / delayed (random pause before every receive) / bursty (paused, then drains at full speed); masks: every meaningful bit and combinations; wd: listed / removed / never issued / -1; cookies: 0, "
                "fresh, matching, repeated; names of 1..255 bytes at every padding residue, over-padded, unpadded, interior "
                "NUL) fed to the unmodified readEvents through a SOCK_SEQPACKET pair; hand-picked corpus histories first; "
                "every answer (return class, event sequence, error sequence, both tables, cookie ring) compared with the "
@@ -23,7 +24,8 @@ LIVE_RULE = ("; LIVE stage: the same Watcher construction, but the datagrams are
 CONC_RULE = ("GENUINE Watchers (NewWatcher / NewBufferedWatcher, nothing replaced): scenarios = buffer sizes x consumer behaviours "
              "{both, only Events, only Errors, neither, stops midway} x pending {idle, burst beyond capacity, rename-then-"
              "delete (pending error), kernel queue overflow}; every control call runs under an 8 s watchdog with goroutine "
-             "dump; after Close both channels must be closed, the API inert, nothing received after the close")
+             "dump; after Close both channels must be closed, the API inert, nothing received after the close; C06/C07: hundreds of rounds of 6 Add + "
+             "1 Remove goroutines racing Close (a call acting after the descriptor is released must answer ErrClosed / nil)")
 
 KQ_RULE = ("the REAL backend_kqueue.go + fsnotify.go + shared.go + system_bsd.go copied verbatim at check time (only the build-"
            "tag line and three import paths rewritten) and compiled on Linux against kqsim stand-ins; sessions over "
@@ -320,17 +322,17 @@ def compare(pid, stage, ops, impl, model):
         if a == b or diverged:
             continue
         if sessioned:
+            # every property reads the whole session through its own projection: the first line on
+            # which THIS property's projection differs is its failing input, whatever diverged before
+            # (a watch that wrongly survives is C04's business when it shows in WatchList and C02's
+            # when an event is later reported through it). One report per session.
             if differs(pid, a, b):
                 diverged = True
                 out.append({"op": o, "impl": a, "model": b, "session_op": True, "session": cur_session, "stage": stage["name"]})
-            elif _internal_only(a, b):
-                # only the internal tables differ so far (the wd table / the cookie ring: C12's and C11's
-                # business); nothing a caller can see has diverged, so keep reading this session for
-                # the first caller-visible divergence and attribute that one
-                other += 1
             else:
-                diverged = True
                 other += 1
+        elif pid == "C18" and " kqstate " in o[:24]:
+            other += 1           # the table invariant is C17's statement; C18 is about the events
         else:
             out.append({"op": o, "impl": a, "model": b})
         if len(out) >= 25:
@@ -382,4 +384,8 @@ def classify(pid, dsg):
     """Canonical signature of a disagreement (used to match known findings)."""
     op = dsg["op"].split(" ")
     kind = op[1] if len(op) > 1 else "?"
+    if kind == "kqstate":      # the clause of the table invariant the model names
+        m = dsg.get("model", "").split("INV-VIOLATED ")
+        if len(m) > 1:
+            return f"{pid}:corr:kqstate:{m[1].strip()}"
     return f"{pid}:corr:{kind}"
